@@ -47,7 +47,7 @@ def main():
             na.append({'property_id': p, 'reason': 'check not built yet (work in progress; see DESIGN.md section 4)'})
     m = {
         'version': 1,
-        'setup_cmd': 'true',
+        'setup_cmd': 'bin/selftest',
         'hooks': {'guard': 'PYASN1_VERIF', 'enable': 'none needed: all instrumentation is harness-side (monkeypatching in the checking process)',
                   'baseline_off_cmd': BASE.replace(' --junitxml=<file>', ''), 'source_commits': [], 'add_only': True},
         'engines': [{'name': 'mc', 'path': 'mc/', 'serves_properties': sorted(CHECKS),
